@@ -29,6 +29,14 @@ EuclidOK(e) ==
    /\ (e.corpus => e.verdict = "yes")
    \* the prism family: known euclidean by construction (curvature 0 in 2-D, covering of the prism symbol)
    /\ ("prism_of" \in DOMAIN e => Euclidean2D(e.prism_of) /\ IsCoverOf(S, Prism(e.prism_of)) /\ e.verdict = "yes")
+   \* prisms over 2-D symbols of any geometry: the input is the prism of the specification; over a base of curvature 0 it is
+   \* euclidean by construction, over any other base the tiling lives in S^2 x R or H^2 x R.  Comparing the verdict with
+   \* that is beyond the statement (bases up to 8 chambers are outside the corpus; a yes needs the certificate checked
+   \* above) and reported as a NOTE only
+   /\ ("prism_over" \in DOMAIN e =>
+         /\ CompleteSym(e.prism_over) /\ e.prism_over.dim = 2 /\ S = Prism(e.prism_over)
+         /\ (IF Euclidean2D(e.prism_over) # (e.verdict = "yes")
+             THEN PrintT(<<"NOTE", "conformance: prism over a 2-D symbol: verdict yes does not coincide with curvature 0 of the base", l>>) ELSE TRUE))
    /\ (e.verdict = "yes" => CertOK(e.cert, S))
    /\ \A k \in 1..Len(e.variants) : LET w == e.variants[k] IN
          /\ "panic" \notin DOMAIN w
